@@ -172,7 +172,9 @@ fn emit_list(l: &[RAst], o: &mut Out, t: &mut Tape, deco: bool) {
 }
 
 const STRAY: [&str; 14] = ["@", "$", ";", ".", ":", "~", "%", "?", "\\", "/", "`", "\u{20ac}", "\u{b2}", "\u{0}"];
-const COMMENTS: [&str; 6] = [
+const COMMENTS: [&str; 8] = [
+    "\"back\\\"",
+    "\"\\\"",
     "\"c\"",
     "\"\"",
     "\"a & b | true\"",
